@@ -22,9 +22,23 @@
 -/
 import GoSecs.Lemmas.LifecycleTerm
 import GoSecs.Lemmas.LifecycleSim
+import GoSecs.Gen.Facts
 
 namespace GoSecs.Props.C10
 open GoSecs.Lifecycle
+
+/-! ## Tie to the source (regenerated on every run): the active Start's seal guard -/
+
+/-- **Start into a sealed transport leaves no socket** (call-site order regenerated from the Go AST of hsmsss
+    `transport.startActive`): the dial is made outside the start gate; under the gate's read lock the sealed branch
+    releases the gate, cancels the Select-procedure context and CLOSES the socket it has just dialed — all before
+    the one place where TCP-up is reported and the socket handed to the generation — and the gate is released once
+    more on the normal path. This is the model's `loopStartFail` for a start that meets `joinSeal`: it publishes
+    nothing and owns nothing afterwards (the "Close leaves no socket open" clause for the Close-vs-redial race). -/
+theorem start_sealed_closes_socket_gen :
+    GoSecs.Gen.hsmsss_startActiveSites =
+      ["cfg.dial", "startGate.RLock", "startGate.RUnlock", "procCancel", "conn.Close", "rt.TCPUp", "startGate.RUnlock"] := by
+  decide
 
 /-- **Double open.** Open on a logically open connection (supervisor present, `shutdown` clear —
     including the window between two reconnect generations) returns `ErrAlreadyOpen` and changes
